@@ -153,6 +153,9 @@ func c16run(env *core.Env, idx int) core.CaseResult {
 		default:
 			c.size = i % 13
 		}
+		if special := []string{".hidden", "..dots", "sp ace", `back\slash`, "col:on", "ünï", "-dash", "x.y.z"}; cs.N >= 3 && i < len(special) && i < cs.N-1 && !c.mount {
+			c.name = special[i] // names a listing must not drop or mangle
+		}
 		want = append(want, c)
 		it := treeItem{Path: prefix + c.name, Dir: c.dir, Perm: 0o644, Data: strings.Repeat("z", c.size)}
 		if c.dir {
@@ -172,6 +175,19 @@ func c16run(env *core.Env, idx int) core.CaseResult {
 		return res
 	}
 	defer sub.cleanup()
+	if sub.writable {
+		// give a few children the special mode bits Chmod may set: an entry's Type() must still be the kind only
+		special := []hackpadfs.FileMode{hackpadfs.ModeSticky | 0o755, hackpadfs.ModeSetuid | 0o755, hackpadfs.ModeSticky | 0o700}
+		k := 0
+		for _, c := range want {
+			if k < len(special) && !c.mount && c.name != "zfile" {
+				if err := hackpadfs.Chmod(sub.fs, prefix+c.name, special[k]); err == nil {
+					res.Count("children_with_special_mode_bits", 1)
+				}
+				k++
+			}
+		}
+	}
 	sigBase := fmt.Sprintf("C16|%s|", cs.Subject)
 	sc := c16sizeClass(len(want))
 	bad := func(check, what, detail string) {
@@ -218,6 +234,8 @@ func c16run(env *core.Env, idx int) core.CaseResult {
 				switch {
 				case ierr != nil || serr != nil:
 					bad("byname", "info-error", fmt.Sprintf("entry %q: Info err=%v, Stat err=%v", e.Name(), ierr, serr))
+				case e.Type() != st.Mode().Type():
+					bad("byname", "type-mismatch", fmt.Sprintf("entry %q: Type()=%v, Stat of the child has type %v", e.Name(), e.Type(), st.Mode().Type()))
 				case fsx.InfoString(info, false) != fsx.InfoString(st, false):
 					bad("byname", "info-mismatch", fmt.Sprintf("entry %q: Info says %q, Stat says %q", e.Name(), fsx.InfoString(info, false), fsx.InfoString(st, false)))
 				}
